@@ -258,6 +258,62 @@ func gen(c *trlib.Ctx) error {
 	okRe := rs != nil && suffixIndex(callsInOrder(rs), "consumeMsg") >= 0
 	add("consumer_rearms_after_delivery", "retrieveAndSendMessage calls consumeMsg after a delivery (C07)", okRe, "no consumeMsg call")
 
+	// 8. the metadata of a durable entity is written before the handler replies: no goroutine in the write path
+	vh, err := c.Parse("server/vhost.go")
+	if err != nil {
+		return err
+	}
+	syncWrite := func(fn, callee string) (bool, string) {
+		fd := trlib.FuncDecl(vh, fn)
+		if fd == nil {
+			return false, fn + " missing"
+		}
+		async := false
+		ast.Inspect(fd.Body, func(n ast.Node) bool {
+			if _, isGo := n.(*ast.GoStmt); isGo {
+				async = true
+			}
+			return true
+		})
+		if async {
+			return false, fn + " starts a goroutine"
+		}
+		if suffixIndex(callsInOrder(fd), callee) < 0 {
+			return false, fn + " does not call " + callee
+		}
+		return true, ""
+	}
+	okQw, wq := syncWrite("VirtualHost.AppendQueue", "srvStorage.AddQueue")
+	okXw, wx := syncWrite("VirtualHost.AppendExchange", "srvStorage.AddExchange")
+	okBw, wb := syncWrite("VirtualHost.PersistBinding", "srvStorage.AddBinding")
+	okDw, wd := syncWrite("VirtualHost.DeleteQueue", "srvStorage.DelQueue")
+	add("metadata_written_before_reply", "AppendQueue / AppendExchange / PersistBinding / DeleteQueue write the store synchronously (C09)", okQw && okXw && okBw && okDw, wq+wx+wb+wd)
+
+	// 9. the queue length is only ever changed atomically
+	atomicOnly, whyLen := true, ""
+	for _, d := range qf.Decls {
+		fd, isF := d.(*ast.FuncDecl)
+		if !isF || fd.Body == nil || fd.Name.Name == "LoadFromMsgStorage" || fd.Name.Name == "NewQueue" {
+			continue
+		}
+		ast.Inspect(fd.Body, func(n ast.Node) bool {
+			switch x := n.(type) {
+			case *ast.IncDecStmt:
+				if strings.HasSuffix(trlib.ExprString(x.X), "queueLength") {
+					atomicOnly, whyLen = false, fd.Name.Name+" changes queueLength with ++/--"
+				}
+			case *ast.AssignStmt:
+				for _, l := range x.Lhs {
+					if strings.HasSuffix(trlib.ExprString(l), "queueLength") {
+						atomicOnly, whyLen = false, fd.Name.Name+" assigns queueLength directly"
+					}
+				}
+			}
+			return true
+		})
+	}
+	add("queue_length_atomic", "queue.go: queueLength is changed through sync/atomic only (C20)", atomicOnly, whyLen)
+
 	// emit
 	sort.SliceStable(facts, func(i, j int) bool { return false })
 	var sb strings.Builder
@@ -284,6 +340,7 @@ func gen(c *trlib.Ctx) error {
 		"Channel.changeFlow", "Channel.sendConfirms", "Channel.addConfirm", "Channel.checkMethodAllowed", "Channel.publishCurrentMessage", "Channel.close")
 	c.RecordShapes("queue/queue.go", qf, "Queue.Push", "Queue.PopQos", "Queue.Requeue", "Queue.AddConsumer", "Queue.Purge", "Queue.Delete")
 	c.RecordShapes("amqp/types.go", ty, "ConfirmMeta.Confirm")
+	c.RecordShapes("server/vhost.go", vh, "VirtualHost.AppendQueue", "VirtualHost.AppendExchange", "VirtualHost.DeleteQueue", "NewVhost")
 	_ = token.NoPos
 	return nil
 }
